@@ -4,6 +4,10 @@ tier=$1; shift
 cd "$(dirname "$0")/.."
 for seed in "$@"; do
   for i in $(seq -w 1 20); do
-    VERIF_SEED=$seed ./check C$i --tier $tier --no-evidence 2>&1 | grep -E "^(VIOLATION|  detail|INCONCLUSIVE|KNOWN|C[0-9]+ )" | cut -c1-330
+    out=$(VERIF_SEED=$seed ./check C$i --tier $tier --no-evidence 2>&1); code=$?
+    echo "$out" | grep -E "^(VIOLATION|  detail|INCONCLUSIVE|KNOWN|C[0-9]+ )" | cut -c1-330
+    if ! echo "$out" | grep -qE "^C[0-9]+ (HELD|VIOLATED|INCONCLUSIVE)"; then
+      echo "C$i NO-VERDICT exit=$code tier=$tier seed=$seed -- last lines:"; echo "$out" | tail -15 | cut -c1-300
+    fi
   done
 done
